@@ -690,6 +690,13 @@ type c14SeqCase struct {
 	DeadlineHi bool   `json:"deadline_hi"` // deadline <= now + effective timeout at the time of the repository call
 	CtxSeen   bool    `json:"ctx_seen"`    // the repository saw a cancelled context iff the message's was
 	Detail    string  `json:"detail,omitempty"`
+	// raw numbers for the Coq comparators (Glue.eff_timeout, Glue.window_ok)
+	RepoCalls   int   `json:"repo_calls"`
+	HasDeadline bool  `json:"has_deadline"`
+	DlLoNs      int64 `json:"dl_lo_ns"`  // min over repository calls of deadline - (clock before the call into the middleware/decorator)
+	DlHiNs      int64 `json:"dl_hi_ns"`  // max of deadline - (clock read inside the repository call)
+	WindowNs    int64 `json:"window_ns"` // kind == window
+	WindowErr   bool  `json:"window_err"`
 }
 
 type c14Repo struct {
@@ -700,6 +707,10 @@ type c14Repo struct {
 	t0      time.Time
 	eff     time.Duration
 	lo, hi  bool
+	calls   int
+	hasDl   bool
+	dlLo    int64
+	dlHi    int64
 	ctxDone bool
 	ctxOK   bool
 }
@@ -710,6 +721,19 @@ func (r *c14Repo) IsDuplicate(ctx context.Context, key string) (bool, error) {
 	defer r.mu.Unlock()
 	r.keys = append(r.keys, key)
 	dl, ok := ctx.Deadline()
+	r.calls++
+	if ok {
+		lo, hi := int64(dl.Sub(r.t0)), int64(dl.Sub(now))
+		if !r.hasDl || lo < r.dlLo {
+			r.dlLo = lo
+		}
+		if !r.hasDl || hi > r.dlHi {
+			r.dlHi = hi
+		}
+		r.hasDl = true
+	} else {
+		r.hasDl, r.calls = false, -1000000 // a call without deadline poisons the case
+	}
 	if !ok {
 		r.lo, r.hi = false, false
 	} else {
@@ -743,6 +767,8 @@ func runC14Seq(args []string) error {
 		switch {
 		case i%25 == 24:
 			cases = append(cases, c14DefaultsCase(rng, i))
+		case i%25 == 12: // the window validation of NewMapExpiringKeyRepository
+			cases = append(cases, c14DefaultsCase(rng, 75))
 		default:
 			cases = append(cases, c14SeqOne(rng))
 		}
@@ -894,6 +920,7 @@ func c14SeqOne(rng *rand.Rand) c14SeqCase {
 		c.RepoKeys = append(c.RepoKeys, in.ID(k))
 	}
 	c.DeadlineLo, c.DeadlineHi, c.CtxSeen = repo.lo, repo.hi, repo.ctxOK
+	c.RepoCalls, c.HasDeadline, c.DlLoNs, c.DlHiNs = repo.calls, repo.hasDl, repo.dlLo, repo.dlHi
 	return c
 }
 
@@ -904,7 +931,13 @@ func c14DefaultsCase(rng *rand.Rand, i int) c14SeqCase {
 	rng.Read(long)
 	other := append([]byte{}, long...)
 	other[len(other)-1] ^= 0x55 // differs only in the last byte: the default hasher reads everything
-	switch (i / 25) % 3 {
+	switch (i / 25) % 4 {
+	case 3:
+		c.Kind = "window"
+		ws := []int64{math.MinInt64, -int64(time.Second), -1, 0, 1, 999999, 1000000, 1000001, int64(2 * time.Millisecond), int64(time.Minute)}
+		c.WindowNs = ws[rng.Intn(len(ws))]
+		_, err := middleware.NewMapExpiringKeyRepository(time.Duration(c.WindowNs))
+		c.WindowErr = err != nil
 	case 0:
 		c.Kind = "defaults-mw"
 		var d *middleware.Deduplicator
